@@ -1146,8 +1146,10 @@ func gridLayout(context *layoutContext, box_ Box, bottomSpace pr.Float, skipStac
 							x, width = getPlacement(columnStart, pr.GridLine{Val: x + 1 + span}, extractNames(columns)).unpack()
 						}
 						intersect := intersectWithChildren(x, y, width, height, childrenPositions)
-						if intersect {
-							// Child intersects with a positioned child.
+						overflow := x+width > implicitX2
+						if intersect || overflow {
+							// Child intersects with a positioned child, or
+							// overflows the number of columns of the implicit grid.
 							continue
 						} else {
 							// Free place found.
@@ -1260,8 +1262,10 @@ func gridLayout(context *layoutContext, box_ Box, bottomSpace pr.Float, skipStac
 								extractNames(columns)).unpack()
 						}
 						intersect := intersectWithChildren(x, y, width, height, childrenPositions)
-						if intersect {
-							// Child intersects with a positioned child.
+						overflow := x+width > implicitX2
+						if intersect || overflow {
+							// Child intersects with a positioned child, or
+							// overflows the number of columns of the implicit grid.
 							continue
 						} else {
 							// Free place found.
